@@ -61,7 +61,8 @@ Computed(s) ==
       [] OTHER -> Err
 
 \* what the API-level result must satisfy by itself (the stage events sharpen it):
-\* without ORDER BY / join the exact sequence; with a join the multiset; with ORDER BY
+\* without ORDER BY / join the exact sequence; with a join the multiset (under a window: as many rows, all
+\* of them rows of the un-windowed result); with ORDER BY
 \* the key-tuple sequence of the canonical answer, drawn from the un-windowed result
 Keyseq(rows, keys) == [i \in 1..Len(rows) |-> KeyTuple(rows[i], keys)]
 SubBag(a, b) == \A i \in DOMAIN a : Count(a, a[i]) <= Count(b, a[i])
@@ -71,7 +72,12 @@ ApiOK(rows, want) ==
     THEN LET full == RunQ([q EXCEPT !.limit = -1, !.offset = -1], doc)
          IN  /\ Keyseq(rows, q.order) = Keyseq(want, q.order)
              /\ SubBag(rows, full.e)
-    ELSE IF q.from.k = "join" THEN BagEq(rows, want)
+    ELSE IF q.from.k = "join"
+    THEN \* the rows of a join come in no particular order: a window without ORDER BY keeps some of them
+         IF q.limit >= 0 \/ q.offset >= 0
+         THEN LET full == RunQ([q EXCEPT !.limit = -1, !.offset = -1], doc)
+              IN  Len(rows) = Len(want) /\ SubBag(rows, full.e)
+         ELSE BagEq(rows, want)
     ELSE rows = want
 
 StageEv ==
